@@ -255,6 +255,35 @@ def shape_self_product_input():
     }
 
 
+def shape_unfresh_pruning():
+    """C amends the output of P late, while other commands start and stop in between."""
+    return {
+        "name": "unfresh_pruning",
+        "sources": {"plan.py": ["v1"], "s1.txt": ["a", "b"]},
+        "scripts": {
+            "./plan.py": {
+                "on": "plan.py",
+                "versions": {
+                    "v1": [
+                        ["static", ["s1.txt"]],
+                        ["step", "C", {"inp": ["s1.txt"], "out": ["c.txt"]}],
+                        ["step", "P", {"inp": ["s1.txt"], "out": ["p.txt"]}],
+                        ["step", "D", {"inp": ["s1.txt"], "out": ["d.txt"]}],
+                        ["step", "E", {"inp": ["s1.txt"], "out": ["e.txt"]}],
+                        ["step", "F", {"inp": ["s1.txt"], "out": ["f.txt"]}],
+                    ]
+                },
+            },
+            "C": [["nop"], ["nop"], ["nop"], ["nop"], ["nop"], ["nop"], ["amend", {"inp": ["p.txt"]}], ["read", "p.txt"],
+                  ["read_declared"], ["write_declared"]],
+            "P": GENERIC_WORKER,
+            "D": [["nop"], ["nop"], ["nop"], ["nop"], ["nop"], ["nop"], ["nop"], ["nop"], ["read_declared"], ["write_declared"]],
+            "E": GENERIC_WORKER,
+            "F": [["nop"], ["nop"], ["read_declared"], ["write_declared"]],
+        },
+    }
+
+
 def shape_hold():
     return {
         "name": "hold",
@@ -401,6 +430,7 @@ SHAPES = {
         shape_detach_running_same_output,
         shape_creator_fails_while_child_runs,
         shape_self_product_input,
+        shape_unfresh_pruning,
         shape_hold,
         shape_amend,
         shape_optional,
